@@ -192,8 +192,8 @@ pub fn streams() -> Vec<Box<dyn AnyStream>> {
         }),
         Box::new(Stream::<Case> {
             name: "roundtrip",
-            quick: 20_000,
-            thorough: 1_500_000,
+            quick: 60_000,
+            thorough: 6_000_000,
             source: Source::Gen(Box::new(strategy)),
             check: Box::new(check),
         }),
